@@ -15,7 +15,7 @@ pub fn profile() -> Profile {
     Profile {
         id: "C04",
         phase: "history",
-        checks: Checks { read: true, versions: true, lifecycle: true, filters: true, ..Default::default() },
+        checks: Checks { read: true, versions: true, lifecycle: true, filters: true, counts: true, ..Default::default() },
         gen: GenParams { nkeys: 4, ts_span: 5, metas: 3, max_ops: 50, w_write: 34, w_delete: 14, w_switch: 6, w_wait: 8, w_reopen: 2, w_lifecycle: 24, w_maint: 12, ..Default::default() },
         keylens: KEY_LENS,
         short_defer: true,
@@ -30,7 +30,7 @@ pub fn run(ctx: &RunCtx) -> PropResult {
     PropResult {
         report,
         level: "exploration",
-        rule: "proptest histories interleaving data operations with try_close/try_create/try_restore_active_blob, force_update_active_blob (always / never / records>=3 / no-active predicates), free_excess_resources, offload_buffer(level 0..2), fsyncdata, wait-idle (dumps complete there) or no wait (dump still in flight), deferred dump times of 2-5 ms or 60 s, both runtime flavours. Oracle after EVERY step: each lifecycle call returns Ok exactly when the model precondition holds; every read/contains/read_all*/read_with for every key equals the model; check_filters/check_filter never deny a stored key; the following write/delete succeed. Non-trivial = a representation change (close, restore, completed dump, offload, forced switch, delete into a closed blob) happened while records existed. distinct = FNV hash of the serialized case.".into(),
+        rule: "proptest histories interleaving data operations with try_close/try_create/try_restore_active_blob, force_update_active_blob (always / never / records>=3 / no-active predicates), free_excess_resources, offload_buffer(level 0..2), fsyncdata, wait-idle (dumps complete there) or no wait (dump still in flight), deferred dump times of 2-5 ms or 60 s, both runtime flavours. Oracle after EVERY step: each lifecycle call returns Ok exactly when the model precondition holds; every read/contains/read_all*/read_with for every key equals the model, and so do records_count, records_count_detailed, records_count_in_active_blob and blobs_count (count queries are queries too); check_filters/check_filter never deny a stored key; the following write/delete succeed. Non-trivial = a representation change (close, restore, completed dump, offload, forced switch, delete into a closed blob) happened while records existed. distinct = FNV hash of the serialized case.".into(),
         assumptions: common_assumptions(),
     }
 }
